@@ -15,7 +15,7 @@ use crate::spec::{self, PreOutcome};
 use crate::syncdrive::{self as sd, Chunking, PStatus, SDriver};
 use crate::wire;
 
-fn make_stream_parser<'c>(cfg: &'c Config, bytes: &[u8], rng: &mut Rng) -> Option<(stream::Parser<'c>, usize)> {
+pub fn make_stream_parser<'c>(cfg: &'c Config, bytes: &[u8], rng: &mut Rng) -> Option<(stream::Parser<'c>, usize)> {
     let mut ch = Chunking::Fill;
     let run = sd::drive_request(request::Parser::new(cfg), bytes, 0, bytes.len(), &mut ch, rng, false);
     if !run.done {
